@@ -224,6 +224,28 @@ def ufn(x):
     return jnp.sin(x) * 2.0
 
 
+# functions whose exported op_type is the name of a standard ONNX operator (domain custom.<Name>.<n>): the optimizer
+# must not mistake the call node for the standard operator
+@boundary(type="Reshape")
+def rearrange(x):
+    return jnp.reshape(jnp.transpose(x), (6,))
+
+
+@boundary(type="Transpose")
+def swap_scaled(x):
+    return jnp.transpose(x) * 2.0
+
+
+@boundary(type="Identity")
+def not_identity(x):
+    return x + 1.0
+
+
+@boundary(type="Cast")
+def not_cast(x):
+    return jnp.floor(x)
+
+
 # ------------------------------------------------------------------------------------------- instances
 a2, a3, a2_add, a2_twin = Scale(2.0), Scale(3.0), Scale(2.0, "add"), Scale(2.0)
 sub2 = SubScale(2.0)
@@ -259,6 +281,8 @@ TARGETS = {
     "two_in": ("two_in", False, False), "unused_in": ("unused_in", False, False),
     "const_out": ("const_out", False, False), "with_global": ("with_global", False, False),
     "ufn": ("ufn", True, False),
+    "rearrange": ("Reshape", False, False), "swap_scaled": ("Transpose", False, False),
+    "not_identity": ("Identity", False, False), "not_cast": ("Cast", False, False),
 }
 
 F23 = ((2, 3), "float32")
@@ -414,6 +438,18 @@ prog("symbolic_batch", lambda x: a2(x) + lin0(x + 1.0), [(("B", 3), "float32")],
 prog("double_precision", lambda x: lin0(x) + lin1(x + 1.0) + kw(x, k=0.1), X,
      [s_lin("lin0", (((2, 3), "float64"),)), s_lin("lin1", (((2, 3), "float64"),)), S("kw", "kw", "", [((2, 3), "float64")], [("k", st("0.1:f64"))])],
      "weights (enable_double_precision)", x64=True)
+
+
+# functions named like standard operators, placed where the optimizer folds pairs of the standard operator
+F32_ = ((3, 2), "float32")
+prog("lookalike_reshape", lambda x: jnp.reshape(rearrange(x), (2, 3)) + jnp.reshape(rearrange(x + 1.0) * 2.0, (2, 3)), X,
+     [S("rearrange", "rearrange", "", [F23]), S("rearrange", "rearrange", "", [F23])], "function named Reshape before a Reshape back")
+prog("lookalike_transpose", lambda x: jnp.transpose(swap_scaled(x)) + jnp.transpose(swap_scaled(jnp.transpose(jnp.transpose(x) + 1.0))), X,
+     [S("swap_scaled", "swap_scaled", "", [F23]), S("swap_scaled", "swap_scaled", "", [F23])], "function named Transpose between Transposes")
+prog("lookalike_identity", lambda x: not_identity(x) * 2.0 + not_identity(x + 1.0), X,
+     [S("not_identity", "not_identity", "", [F23]), S("not_identity", "not_identity", "", [F23])], "function named Identity")
+prog("lookalike_cast", lambda x: not_cast(x.astype(jnp.int32).astype(jnp.float32) * 1.5).astype(jnp.int32).astype(jnp.float32) + not_cast(x), X,
+     [S("not_cast", "not_cast", "", [F23]), S("not_cast", "not_cast", "", [F23])], "function named Cast between Casts")
 
 
 # control flow: a function inside a loop / branch body
